@@ -284,6 +284,38 @@ func (x *exec) inline(fr *frame, s *State, fn *ssa.Function, args, bind []*Val, 
 	}
 	m := x.merge(nf.rets, "ret."+fn.Name())
 	*s = *m
+	if fn.Parent() != nil && nf.con != nil && len(nf.con.Ensures) > 0 && x.dry == 0 {
+		// `closure k: ensures P`: checked where the function literal is executed (for change pairs: from the
+		// state in which the pair is appended); old() is the state before the literal ran
+		endPos := fn.Pos()
+		if syn := fn.Syntax(); syn != nil {
+			endPos = syn.End() - 1
+		}
+		env := x.frameEnv(nf, s, endPos)
+		// parameters of the enclosing function under proof by their contract names
+		if x.con != nil {
+			pnames := x.con.Params
+			if x.con.Recv != "" {
+				pnames = append([]string{x.con.Recv}, pnames...)
+			}
+			for f := fr; f != nil; f = f.parent {
+				if f.top {
+					for i, n := range pnames {
+						if _, taken := env.vars[n]; !taken && i < len(f.params) && env.cell(n) == nil {
+							env.vars[n] = f.params[i]
+						}
+					}
+				}
+			}
+		}
+		for i, e := range nf.con.Ensures {
+			label := e.Label
+			if label == "" {
+				label = fmt.Sprint(i + 1)
+			}
+			x.oblig(nf, s.clone(), "post", label, pos, x.evalBool(e.E, env), e.Props)
+		}
+	}
 	n := fn.Signature.Results().Len()
 	if n == 0 {
 		return &Val{}
